@@ -120,7 +120,10 @@ def run_gens(names: list[str]) -> list[str]:
 
 
 def all_gens() -> list[str]:
-    return sorted(p.stem for p in (VERIF / "gen").glob("*.py") if not p.stem.startswith("_"))
+    # translators that read another translator's output (c02_ctor / c02_fields read C02Registry.lean) come after the
+    # `*_registry` ones, so that a fresh checkout (no Gen files yet) sets up in one pass
+    return sorted((p.stem for p in (VERIF / "gen").glob("*.py") if not p.stem.startswith("_")),
+                  key=lambda s: (not s.endswith("_registry"), s))
 
 
 def lake_build(targets: list[str], timeout=1800):
